@@ -1492,7 +1492,7 @@ def run(ctx):
         "source_program_lines_compared": sstats["lines"],
         "source_programs_changed_by_pass": len(sstats["changed"]),
         "source_sample": src_sample,
-        "rule": "kernel lines (fold/tgt/merge/trip/flex/order/unwrap/ccp/ivloop/ivorig/srloop/srorig/dce/licm/lvn/cse) over a boundary-heavy 32-bit distribution "
+        "rule": "kernel lines (fold/tgt/merge/trip/flex/order/unwrap/ccp/ivloop/ivorig/srloop/srorig/dce/licm/lvn/lvnw/cse/inl) over a boundary-heavy 32-bit distribution "
                 "(0, +-1, +-2, MIN, MIN+1, MAX, MAX-1, powers of two, sqrt(MAX), random) answered by the real functions/passes and by the Lean model; "
                 "generated int-only MIR programs (straight-line, if/else with phis, single-if, counting loops of all four guard kinds and both stride "
                 "signs, empty loops for the closed form, IV-elimination candidates, loops with 2-3 basic induction variables with distinct literal/parameter starts and derived variables of any of them live in prints/calls/accumulators, duplicated pure computations whose copy feeds every consuming position (call argument, operand, condition, if/else final assignment, break value, loop initial/loop value, return value), helper functions for inlining) run before/after each single pass, "
@@ -1519,9 +1519,12 @@ def run(ctx):
         "full_strength_theorems": ["fold_exact", "fold_never_panics", "binaryUnwrapped_sound", "flexibleOrder_sound", "flexUnwrapped_sound",
                                    "strength_sound", "strength_multi_sound", "strength_multi_trace", "loopopt_strength_path_sound",
                                    "tripcount_exact", "tripcount_final_value", "dce_preserves", "licm_no_new_trap",
-                                   "lvnSimple_preserves", "lvn_preserves", "lvnL_preserves", "cse_hoist_order"],
+                                   "lvnSimple_preserves", "lvn_preserves", "lvnL_preserves", "iterLoop_preserves", "lvnLoop_preserves",
+                                   "cse_hoist_order", "inlineBody_preserves", "inline_preserves", "ivelim_negative_multiplier_fixed"],
         "pending": ["CSE: only trap-freedom/silence of the hoisted prefix is proved (cse_hoist_order); value equivalence of the rewritten branches is validated only",
-                    "lvn for IfElse final assignments / nested While / loop values (proved: blocks of Binary, call, Break and SingleIf with statement bodies)",
+                    "lvn: proved for blocks of Binary/call/Break, SingleIf and IfElse (with final assignments) over statement blocks, and for a While over such a body (initial values, loop values, every fuel); deeper nesting (loops inside branches, branches inside branches) is validated only",
+                    "inlining: proved for a callee whose body is a block of Binary/call statements (fresh-name renaming, parameter substitution, return move); callee bodies with control flow, the cost model and recursion guards are validated only",
+                    "scalar replacement: validated only (and the generated MIR has no structs)",
                     "dce_preserves / licm for nested if/while (proved for straight-line blocks / loop bodies of Binary + call statements)",
                     "LICM permutation equivalence (hoisted ++ kept behaves like the body); only trap-freedom of the hoisted prefix is proved",
                     "inlining, LVN, scalar replacement, unused-name elimination, CCP/loop drivers: validated, not modelled"],
